@@ -4,7 +4,7 @@ import Spec.Js
 loops with an index counter against `List.zipIdx`. -/
 namespace Proofs.Meth
 open Model.Meth
-open Spec.Js (Binds BindsVal rel range)
+open Spec.Js (Binds BindsVal rel range IsSortOf)
 
 /-! ### argument binding -/
 
@@ -84,5 +84,517 @@ theorem sliceExpr_eq (xs : List Val) (a b : Nat) (h1 : a ≤ b) (h2 : b ≤ xs.l
   rw [if_pos (by omega)]
   congr 3
   omega
+
+/-! ### refinements, method by method -/
+
+theorem spec_slice_eq (xs : List Val) (s e : Option Int) :
+    Spec.Js.slice xs s e = ⟨.list (range xs (rel xs.length (s.getD 0)) (rel xs.length (e.getD xs.length))), xs⟩ := by
+  cases e <;> simp [Spec.Js.slice, rel_len]
+
+theorem slice_refines (xs args : List Val) (s e : Option Int) (h0 : Binds args 0 s) (h1 : Binds args 1 e) :
+    slice xs args = .ok (Spec.Js.slice xs s e) := by
+  rw [spec_slice_eq]
+  unfold slice
+  simp only [intArg_of_binds h0, optIntArg_of_binds _ h1]
+  have hb := sliceBounds_spec xs.length (s.getD 0) (e.getD xs.length)
+  simp only at hb
+  generalize sliceBounds (xs.length) (s.getD 0) (e.getD xs.length) = p at hb ⊢
+  generalize hA : rel xs.length (s.getD 0) = A at hb ⊢
+  generalize hB : rel xs.length (e.getD xs.length) = B at hb ⊢
+  have hBn : B ≤ xs.length := hB ▸ rel_le _ _
+  rcases Nat.lt_or_ge A B with hlt | hge
+  · obtain ⟨h1, h2⟩ := hb.1 hlt
+    rw [h1, h2, if_neg (by omega)]
+    have : ((B : Int) - (A : Int)).toNat = B - A := by omega
+    rw [this, copyRange_eq xs (B - A) A (by omega), range_eq]
+  · have h := hb.2 hge
+    rw [h, if_neg (by omega)]
+    simp [copyRange_zero, range_empty xs A B hge]
+
+theorem spec_splice_eq (xs : List Val) (s d : Option Int) (items : List Val) :
+    Spec.Js.splice xs s d items =
+      (let a := rel xs.length (s.getD 0)
+       let n := min (d.getD xs.length).toNat (xs.length - a)
+       ⟨.list (range xs a (a + n)), xs.take a ++ items ++ xs.drop (a + n)⟩) := by
+  have := rel_le xs.length (s.getD 0)
+  cases d with
+  | none =>
+    have h : min ((xs.length : Int)).toNat (xs.length - rel xs.length (s.getD 0)) = xs.length - rel xs.length (s.getD 0) := by omega
+    simp only [Spec.Js.splice, Option.getD_none, h]
+  | some d => simp [Spec.Js.splice]
+
+theorem splice_refines (xs args : List Val) (s d : Option Int) (h0 : Binds args 0 s) (h1 : Binds args 1 d) :
+    splice xs args = .ok (Spec.Js.splice xs s d (args.drop 2)) := by
+  rw [spec_splice_eq]
+  unfold splice
+  simp only [intArg_of_binds h0, optIntArg_of_binds _ h1]
+  have hb := spliceBounds_spec xs.length (s.getD 0) (d.getD xs.length)
+  simp only at hb
+  generalize spliceBounds (xs.length) (s.getD 0) (d.getD xs.length) = p at hb ⊢
+  have hAn := rel_le xs.length (s.getD 0)
+  generalize rel xs.length (s.getD 0) = A at hb hAn ⊢
+  generalize hN : min (d.getD xs.length).toNat (xs.length - A) = N at hb ⊢
+  obtain ⟨h1, h2⟩ := hb
+  have hN2 : A + N ≤ xs.length := by omega
+  rw [h1, h2, if_neg (by omega)]
+  have c1 : ((A : Int) + (N : Int)) = ((A + N : Nat) : Int) := by omega
+  have c0 : (0 : Int) = ((0 : Nat) : Int) := rfl
+  rw [c1, sliceExpr_eq xs A (A + N) (by omega) hN2]
+  rw [c0, sliceExpr_eq xs 0 A (by omega) hAn]
+  rw [sliceExpr_eq xs (A + N) xs.length hN2 (Nat.le_refl _)]
+  simp only [rest, range_eq, Nat.add_sub_cancel_left, List.drop_zero, Nat.sub_zero]
+  rw [List.take_of_length_le (l := List.drop (A + N) xs) (by simp)]
+
+theorem push_refines (xs args : List Val) : push xs args = .ok (Spec.Js.push xs args) := by
+  simp [push, rest, Spec.Js.push]
+
+theorem unshift_refines (xs args : List Val) : unshift xs args = .ok (Spec.Js.unshift xs args) := by
+  simp [unshift, rest, Spec.Js.unshift]
+
+theorem pop_refines (xs : List Val) : pop xs = .ok (Spec.Js.pop xs) := by
+  unfold pop Spec.Js.pop
+  rw [List.getLast?_eq_getElem?, List.dropLast_eq_take]
+  by_cases h : xs.length = 0
+  · have : xs = [] := List.length_eq_zero_iff.mp h
+    subst this; simp
+  · rw [if_neg h]
+    have hl : xs.length - 1 < xs.length := by omega
+    simp [List.getElem?_eq_getElem hl]
+
+theorem shift_refines (xs : List Val) : shift xs = .ok (Spec.Js.shift xs) := by
+  cases xs <;> simp [shift, Spec.Js.shift]
+
+theorem spread_eq : spread = Spec.Js.spreadable := by
+  funext v; cases v <;> rfl
+
+theorem foldl_append_flatMap {α β : Type} (f : α → List β) (l : List α) (init : List β) :
+    l.foldl (fun acc it => acc ++ f it) init = init ++ l.flatMap f := by
+  induction l generalizing init with
+  | nil => simp
+  | cons a l ih => simp [ih, List.append_assoc]
+
+theorem concat_refines (xs args : List Val) : concat xs args = .ok (Spec.Js.concat xs args) := by
+  simp only [concat, rest, Spec.Js.concat, foldl_append_flatMap, spread_eq, List.drop_zero]
+
+def suffixStr (sep : String) : List Val → String
+  | [] => ""
+  | v :: r => sep ++ asString v ++ suffixStr sep r
+
+theorem joinLoop_pos (sep : String) (l : List Val) : ∀ (i : Nat) (acc : String), i > 0 →
+    joinLoop sep i acc l = acc ++ suffixStr sep l := by
+  induction l with
+  | nil => intro i acc _; simp [joinLoop, suffixStr]
+  | cons v r ih =>
+    intro i acc hi
+    simp only [joinLoop, hi, ↓reduceIte, suffixStr]
+    rw [ih (i + 1) _ (by omega)]
+    simp [String.append_assoc]
+
+theorem joinWith_cons (sep : String) (r : List Val) : ∀ v : Val,
+    Spec.Js.joinWith sep (asString v :: r.map asString) = asString v ++ suffixStr sep r := by
+  induction r with
+  | nil => intro v; simp [Spec.Js.joinWith, suffixStr]
+  | cons w r ih =>
+    intro v
+    have h := ih w
+    simp only [List.map_cons, Spec.Js.joinWith, suffixStr] at h ⊢
+    rw [h]
+    simp [String.append_assoc]
+
+theorem joinLoop_eq (sep : String) (xs : List Val) :
+    joinLoop sep 0 "" xs = Spec.Js.joinWith sep (xs.map asString) := by
+  cases xs with
+  | nil => simp [joinLoop, Spec.Js.joinWith]
+  | cons v r =>
+    simp only [joinLoop, Nat.lt_irrefl, ↓reduceIte, List.map_cons, gt_iff_lt]
+    rw [joinLoop_pos sep r 1 _ (by omega), joinWith_cons]
+    simp
+
+theorem join_refines (xs args : List Val) (sep : Option Val) (h : BindsVal args 0 sep) :
+    join xs args = .ok (Spec.Js.join xs sep) := by
+  unfold BindsVal at h
+  unfold join Spec.Js.join slot
+  simp only [joinLoop_eq]
+  cases hget : args[0]? with
+  | none => simp [hget] at h; simp [h, given]
+  | some v => cases v <;> simp [hget] at h <;> simp [h, given]
+
+theorem foldl_cons_rev (xs acc : List Val) : xs.foldl (fun acc x => x :: acc) acc = xs.reverse ++ acc := by
+  induction xs generalizing acc with
+  | nil => simp
+  | cons a l ih => simp [ih]
+
+theorem reverse_refines (xs : List Val) : reverse xs = .ok (Spec.Js.reverse xs) := by
+  simp only [reverse, Spec.Js.reverse, foldl_cons_rev, List.append_nil]
+
+theorem length_refines (xs : List Val) : Model.Meth.length xs = .ok (Spec.Js.length xs) := rfl
+
+theorem drop_zipIdx {α : Type} (l : List α) : ∀ (i k : Nat), (l.zipIdx i).drop k = (l.drop k).zipIdx (i + k) := by
+  induction l with
+  | nil => intro i k; simp
+  | cons a l ih =>
+    intro i k
+    cases k with
+    | zero => simp
+    | succ k => simp only [List.zipIdx_cons, List.drop_succ_cons, ih]; congr 1; omega
+
+theorem scanFrom_eq (key : String) (l : List Val) : ∀ i : Nat,
+    scanFrom key i l = ((l.zipIdx i).find? (fun (p : Val × Nat) => asString p.1 == key)).map (·.2) := by
+  induction l with
+  | nil => intro i; simp [scanFrom]
+  | cons v r ih =>
+    intro i
+    simp only [scanFrom, List.zipIdx_cons, List.find?_cons]
+    by_cases h : (asString v == key) = true
+    · simp [h]
+    · simp only [h]; rw [ih]; simp
+
+theorem scanFrom_isSome (key : String) (l : List Val) : ∀ i : Nat,
+    (scanFrom key i l).isSome = l.any (fun v => asString v == key) := by
+  induction l with
+  | nil => intro i; simp [scanFrom]
+  | cons v r ih =>
+    intro i
+    simp only [scanFrom, List.any_cons]
+    by_cases h : (asString v == key) = true
+    · simp [h]
+    · simp [h, ih]
+
+theorem fromIndex_eq (xs args : List Val) (f : Option Int) (h : Binds args 1 f) :
+    fromIndex xs args = (if rel xs.length (f.getD 0) ≥ xs.length then none else some (rel xs.length (f.getD 0))) := by
+  unfold fromIndex
+  simp only [intArg_of_binds h]
+  generalize f.getD 0 = k
+  unfold rel
+  (repeat' split) <;> first | omega | rfl | (congr 1; omega)
+
+theorem indexOf_refines (xs : List Val) (key : Val) (more : List Val) (f : Option Int)
+    (h : Binds (key :: more) 1 f) :
+    indexOf xs (key :: more) = .ok (Spec.Js.indexOf xs key f) := by
+  simp only [indexOf, Spec.Js.indexOf, Spec.Js.firstMatch]
+  rw [fromIndex_eq xs _ f h]
+  have hk := rel_le xs.length (f.getD 0)
+  generalize rel xs.length (f.getD 0) = k at hk ⊢
+  have hslot : slot (key :: more) 0 = key := rfl
+  rw [hslot, drop_zipIdx]
+  by_cases hge : k ≥ xs.length
+  · have : List.drop k xs = [] := List.drop_of_length_le hge
+    simp [hge, this]
+  · simp only [hge, ↓reduceIte, scanFrom_eq, Nat.zero_add]
+    cases List.find? (fun (p : Val × Nat) => asString p.1 == asString key) ((List.drop k xs).zipIdx k) <;> rfl
+
+theorem includes_refines (xs : List Val) (key : Val) (more : List Val) (f : Option Int)
+    (h : Binds (key :: more) 1 f) :
+    includes xs (key :: more) = .ok (Spec.Js.includes xs key f) := by
+  unfold includes Spec.Js.includes
+  rw [fromIndex_eq xs _ f h]
+  have hk := rel_le xs.length (f.getD 0)
+  generalize rel xs.length (f.getD 0) = k at hk ⊢
+  have hslot : slot (key :: more) 0 = key := rfl
+  rw [hslot]
+  by_cases hge : k ≥ xs.length
+  · have : List.drop k xs = [] := List.drop_of_length_le hge
+    simp [hge, this]
+  · simp only [hge, ↓reduceIte]
+    rw [← scanFrom_isSome (asString key) (List.drop k xs) k]
+    cases scanFrom (asString key) k (List.drop k xs) <;> rfl
+
+theorem foldl_step_flatMap {α β : Type} (step : List β → α → List β) (g : α → List β)
+    (h : ∀ r el, step r el = r ++ g el) (l : List α) (init : List β) :
+    l.foldl step init = init ++ l.flatMap g := by
+  have : step = fun acc it => acc ++ g it := by funext r el; exact h r el
+  rw [this, foldl_append_flatMap]
+
+theorem foldl_step_flatMap_nil {α β : Type} (step : List β → α → List β) (g : α → List β)
+    (h : ∀ r el, step r el = r ++ g el) (l : List α) :
+    l.foldl step [] = l.flatMap g := by
+  rw [foldl_step_flatMap step g h]; simp
+
+theorem flatten_eq : ∀ (d : Nat) (xs : List Val), flatten d xs = Spec.Js.flatDepth d xs
+  | 0, xs => rfl
+  | d + 1, xs => by
+    simp only [flatten, Spec.Js.flatDepth]
+    apply foldl_step_flatMap_nil
+    intro r el
+    cases el <;> simp [flatten_eq d]
+
+theorem flat_refines (xs args : List Val) (depth : Option Int) (h : Binds args 0 depth) :
+    flat xs args = .ok (Spec.Js.flat xs depth) := by
+  unfold flat Spec.Js.flat
+  simp only [optIntArg_of_binds _ h]
+  generalize depth.getD 1 = d
+  by_cases hd : d ≤ 0
+  · have : d.toNat = 0 := by omega
+    simp [hd, this, Spec.Js.flatDepth]
+  · simp [hd, flatten_eq]
+
+theorem forEachLoop_eq (arr : List Val) (l : List Val) : ∀ i : Nat,
+    forEachLoop arr i l = (l.zipIdx i).map (fun p => (⟨p.1, p.2, arr⟩ : CallEv)) := by
+  induction l with
+  | nil => intro i; simp [forEachLoop]
+  | cons v r ih => intro i; simp [forEachLoop, ih]
+
+theorem mapLoop_eq (f : Cb) (arr : List Val) (l : List Val) : ∀ i : Nat,
+    mapLoop f arr i l = (l.zipIdx i).map (fun p => f p.1 p.2 arr) := by
+  induction l with
+  | nil => intro i; simp [mapLoop]
+  | cons v r ih => intro i; simp [mapLoop, ih]
+
+theorem filterLoop_eq (p : Pred) (arr : List Val) (l : List Val) : ∀ (i : Nat) (acc : List Val),
+    filterLoop p arr i acc l = acc ++ ((l.zipIdx i).filter (fun q => p q.1 q.2 arr)).map (·.1) := by
+  induction l with
+  | nil => intro i acc; simp [filterLoop]
+  | cons v r ih =>
+    intro i acc
+    simp only [filterLoop, List.zipIdx_cons, List.filter_cons, ih]
+    by_cases h : p v i arr = true <;> simp [h]
+
+theorem findLoop_eq (p : Pred) (arr : List Val) (l : List Val) : ∀ i : Nat,
+    findLoop p arr i l = ((l.zipIdx i).find? (fun q => p q.1 q.2 arr)).map (fun q => (q.2, q.1)) := by
+  induction l with
+  | nil => intro i; simp [findLoop]
+  | cons v r ih =>
+    intro i
+    simp only [findLoop, List.zipIdx_cons, List.find?_cons]
+    by_cases h : p v i arr = true
+    · simp [h]
+    · simp [h, ih]
+
+theorem everyLoop_eq (p : Pred) (arr : List Val) (l : List Val) : ∀ i : Nat,
+    everyLoop p arr i l = (l.zipIdx i).all (fun q => p q.1 q.2 arr) := by
+  induction l with
+  | nil => intro i; simp [everyLoop]
+  | cons v r ih =>
+    intro i
+    simp only [everyLoop, List.zipIdx_cons, List.all_cons, ih]
+    by_cases h : p v i arr = true <;> simp [h]
+
+theorem someLoop_eq (p : Pred) (arr : List Val) (l : List Val) : ∀ i : Nat,
+    someLoop p arr i l = (l.zipIdx i).any (fun q => p q.1 q.2 arr) := by
+  induction l with
+  | nil => intro i; simp [someLoop]
+  | cons v r ih =>
+    intro i
+    simp only [someLoop, List.zipIdx_cons, List.any_cons, ih]
+    by_cases h : p v i arr = true <;> simp [h]
+
+theorem flatMapLoop_eq (f : Cb) (arr : List Val) (l : List Val) : ∀ (i : Nat) (acc : List Val),
+    flatMapLoop f arr i acc l = acc ++ (l.zipIdx i).flatMap (fun p => Spec.Js.spreadable (f p.1 p.2 arr)) := by
+  induction l with
+  | nil => intro i acc; simp [flatMapLoop]
+  | cons v r ih =>
+    intro i acc
+    simp [flatMapLoop, ih, spread_eq, List.append_assoc]
+
+theorem reduceLoop_eq (f : Cb4) (arr : List Val) (l : List Val) : ∀ (i : Nat) (acc : Val),
+    reduceLoop f arr i acc l = (l.zipIdx i).foldl (fun acc p => f acc p.1 p.2 arr) acc := by
+  induction l with
+  | nil => intro i acc; simp [reduceLoop]
+  | cons v r ih => intro i acc; simp [reduceLoop, ih]
+
+theorem forEach_refines (xs : List Val) :
+    forEach xs = (.ok (Spec.Js.forEach xs), Spec.Js.calls xs) := by
+  simp [forEach, Spec.Js.forEach, Spec.Js.calls, forEachLoop_eq]
+
+theorem map_refines (xs : List Val) (f : Cb) : map xs f = .ok (Spec.Js.map xs f) := by
+  simp [map, Spec.Js.map, mapLoop_eq]
+
+theorem filter_refines (xs : List Val) (p : Pred) : filter xs p = .ok (Spec.Js.filter xs p) := by
+  simp [filter, Spec.Js.filter, filterLoop_eq]
+
+theorem find_refines (xs : List Val) (p : Pred) : find xs p = .ok (Spec.Js.find xs p) := by
+  simp only [find, Spec.Js.find, findLoop_eq]
+  cases List.find? (fun q => p q.1 q.2 xs) (xs.zipIdx 0) <;> rfl
+
+theorem findIndex_refines (xs : List Val) (p : Pred) : findIndex xs p = .ok (Spec.Js.findIndex xs p) := by
+  simp only [findIndex, Spec.Js.findIndex, findLoop_eq]
+  cases List.find? (fun q => p q.1 q.2 xs) (xs.zipIdx 0) <;> rfl
+
+theorem every_refines (xs : List Val) (p : Pred) : every xs p = .ok (Spec.Js.every xs p) := by
+  simp [every, Spec.Js.every, everyLoop_eq]
+
+theorem some_refines (xs : List Val) (p : Pred) : someP xs p = .ok (Spec.Js.someP xs p) := by
+  simp [someP, Spec.Js.someP, someLoop_eq]
+
+theorem flatMap_refines (xs : List Val) (f : Cb) : flatMap xs f = .ok (Spec.Js.flatMap xs f) := by
+  simp [flatMap, Spec.Js.flatMap, flatMapLoop_eq]
+
+theorem reduce_refines (xs : List Val) (f : Cb4) (args : List Val) (init : Option Val)
+    (h : BindsVal args 0 init) : reduce xs f args = .ok (Spec.Js.reduce xs f init) := by
+  unfold BindsVal at h
+  unfold reduce Spec.Js.reduce slot
+  cases hget : args[0]? with
+  | none =>
+    simp [hget] at h; subst h
+    cases xs with
+    | nil => simp [given]
+    | cons x r => simp [given, reduceLoop_eq]
+  | some v =>
+    cases v <;> simp [hget] at h <;> subst h
+    · cases xs with
+      | nil => simp [given]
+      | cons x r => simp [given, reduceLoop_eq]
+    all_goals simp [given, reduceLoop_eq]
+
+/-- descending in the reversed prefix -/
+
+def Desc (a b : Val) : Prop := ¬ asString a < asString b
+
+theorem mem_insRev (x : Val) : ∀ (l : List Val) (a : Val), a ∈ insRev x l → a = x ∨ a ∈ l := by
+  intro l
+  induction l with
+  | nil => intro a h; simp [insRev] at h; exact Or.inl h
+  | cons y r ih =>
+    intro a h
+    simp only [insRev] at h
+    split at h
+    · rcases List.mem_cons.mp h with h | h
+      · exact Or.inr (by simp [h])
+      · rcases ih a h with h | h
+        · exact Or.inl h
+        · exact Or.inr (List.mem_cons_of_mem _ h)
+    · rcases List.mem_cons.mp h with h | h
+      · exact Or.inl h
+      · exact Or.inr h
+
+theorem insRev_pairwise (x : Val) : ∀ l : List Val, l.Pairwise Desc → (insRev x l).Pairwise Desc := by
+  intro l
+  induction l with
+  | nil => intro _; simp [insRev]
+  | cons y r ih =>
+    intro h
+    obtain ⟨hy, hr⟩ := List.pairwise_cons.mp h
+    simp only [insRev]
+    split
+    · rename_i hlt
+      refine List.pairwise_cons.mpr ⟨?_, ih hr⟩
+      intro a ha
+      rcases mem_insRev x r a ha with rfl | ha
+      · exact String.lt_asymm hlt
+      · exact hy a ha
+    · rename_i hnlt
+      refine List.pairwise_cons.mpr ⟨?_, h⟩
+      intro a ha
+      rcases List.mem_cons.mp ha with rfl | ha
+      · exact hnlt
+      · have h1 : asString a ≤ asString y := String.not_lt.mp (hy a ha)
+        have h2 : asString y ≤ asString x := String.not_lt.mp hnlt
+        exact String.not_lt.mpr (String.le_trans h1 h2)
+
+theorem insRev_filter (x : Val) (k : String) : ∀ l : List Val,
+    (insRev x l).filter (fun v => asString v == k) =
+      if asString x == k then x :: l.filter (fun v => asString v == k) else l.filter (fun v => asString v == k) := by
+  intro l
+  induction l with
+  | nil => simp [insRev, List.filter_cons]
+  | cons y r ih =>
+    simp only [insRev]
+    split
+    · rename_i hlt
+      simp only [List.filter_cons, ih]
+      by_cases hx : (asString x == k) = true
+      · have hxe : asString x = k := by simpa using hx
+        have hy : ¬ (asString y == k) = true := by
+          intro hy
+          have hye : asString y = k := by simpa using hy
+          rw [hxe, hye] at hlt
+          exact String.lt_irrefl _ hlt
+        simp [hx, hy]
+      · simp [hx]
+    · simp [List.filter_cons]
+
+theorem foldl_insRev_inv (k : String) : ∀ (rest pre rp : List Val),
+    rp.Pairwise Desc →
+    rp.filter (fun v => asString v == k) = (pre.filter (fun v => asString v == k)).reverse →
+    (rest.foldl (fun rp x => insRev x rp) rp).Pairwise Desc ∧
+    (rest.foldl (fun rp x => insRev x rp) rp).filter (fun v => asString v == k) =
+      ((pre ++ rest).filter (fun v => asString v == k)).reverse := by
+  intro rest
+  induction rest with
+  | nil => intro pre rp h1 h2; simpa using ⟨h1, h2⟩
+  | cons x r ih =>
+    intro pre rp h1 h2
+    have := ih (pre ++ [x]) (insRev x rp) (insRev_pairwise x rp h1) (by
+      rw [insRev_filter, List.filter_append, List.reverse_append, h2]
+      by_cases hx : (asString x == k) = true <;> simp [hx])
+    simpa [List.append_assoc] using this
+
+theorem sort_refines (xs : List Val) :
+    ∃ ys, sort xs = .ok ⟨.list ys, ys⟩ ∧ IsSortOf xs ys := by
+  refine ⟨(xs.foldl (fun rp x => insRev x rp) []).reverse, rfl, ?_, ?_⟩
+  · have := (foldl_insRev_inv "" xs [] [] List.Pairwise.nil (by simp)).1
+    rw [List.pairwise_reverse]
+    exact this
+  · intro k
+    have := (foldl_insRev_inv k xs [] [] List.Pairwise.nil (by simp)).2
+    rw [List.filter_reverse, this]
+    simp
+
+theorem isSortOf_unique (xs : List Val) : ∀ (ys zs : List Val), IsSortOf xs ys → IsSortOf xs zs → ys = zs := by
+  intro ys zs hy hz
+  have hf : ∀ k : String, ys.filter (fun v => asString v == k) = zs.filter (fun v => asString v == k) := by
+    intro k; rw [hy.2 k, hz.2 k]
+  have hys := hy.1
+  have hzs := hz.1
+  clear hy hz
+  induction ys generalizing zs with
+  | nil =>
+    cases zs with
+    | nil => rfl
+    | cons z zs' =>
+      have := hf (asString z)
+      simp at this
+  | cons y ys' ih =>
+    cases zs with
+    | nil =>
+      have := hf (asString y)
+      simp at this
+    | cons z zs' =>
+      obtain ⟨hy1, hy2⟩ := List.pairwise_cons.mp hys
+      obtain ⟨hz1, hz2⟩ := List.pairwise_cons.mp hzs
+      -- y occurs in z :: zs', z occurs in y :: ys'
+      have hyin : y ∈ z :: zs' := by
+        have : y ∈ (z :: zs').filter (fun v => asString v == asString y) := by
+          rw [← hf]; simp
+        exact (List.mem_filter.mp this).1
+      have hzin : z ∈ y :: ys' := by
+        have : z ∈ (y :: ys').filter (fun v => asString v == asString z) := by
+          rw [hf]; simp
+        exact (List.mem_filter.mp this).1
+      have hzy : asString z ≤ asString y := by
+        rcases List.mem_cons.mp hyin with h | h
+        · rw [h]; exact String.le_refl _
+        · exact String.not_lt.mp (hz1 y h)
+      have hyz : asString y ≤ asString z := by
+        rcases List.mem_cons.mp hzin with h | h
+        · rw [h]; exact String.le_refl _
+        · exact String.not_lt.mp (hy1 z h)
+      have hkey : asString y = asString z := String.le_antisymm hyz hzy
+      have hk := hf (asString y)
+      simp only [List.filter_cons, beq_self_eq_true, ↓reduceIte] at hk
+      rw [if_pos (by simp [hkey])] at hk
+      obtain ⟨hhead, htail⟩ := List.cons.inj hk
+      subst hhead
+      congr 1
+      apply ih zs' _ hy2 hz2
+      intro k
+      by_cases hk' : (asString y == k) = true
+      · have : asString y = k := by simpa using hk'
+        subst this; exact htail
+      · have := hf k
+        simpa [List.filter_cons, hk'] using this
+
+/-! ### purity -/
+
+open Spec.Js (documentedMutator) in
+theorem nonmutators_pure (xs : List Val) (c : Call) (o : Out)
+    (hc : documentedMutator c = false) (h : run xs c = .ok o) : o.recv = xs := by
+  cases c <;> simp [documentedMutator] at hc <;>
+    simp only [run, slice, concat, join, indexOf, includes, find, findIndex, forEach, map, filter,
+      reduce, every, someP, flat, flatMap, Model.Meth.length] at h <;>
+    (repeat' (split at h)) <;>
+    first
+      | (cases h; rfl)
+      | contradiction
 
 end Proofs.Meth
